@@ -1483,7 +1483,7 @@ fn exec_harmony(song: &mut Song, t: &Token, flag_begin: bool) {
             if note_qlen != 0 {
                 e.v2 = note_len.wrapping_mul(note_qlen) / 100;
             }
-            if !note_vel.is_none() {
+            if !note_vel.is_none() && note_vel.to_i() >= 0 { // an empty velocity slot ('ceg'4,,) reads as -1: the notes keep their own velocity
                 e.v3 = note_vel.to_i();
             }
             trk!(song).events.push(e);
